@@ -22,6 +22,10 @@ class VirtualToReal:
 
   def _substitute_virtual_line(self, previous):
     self._gfa = previous.gfa
+    if self.virtual and isinstance(previous, gfapy.line.Unknown):
+      journal = getattr(self._gfa, "_refined_placeholders", None)
+      if journal is not None:
+        journal.append((self, previous))
     self._import_references(previous)
     self._gfa._unregister_line(previous)
     self._gfa._register_line(self)
@@ -36,7 +40,7 @@ class VirtualToReal:
       self._import_field_references(previous)
       self._update_field_backreferences(previous)
     else:
-      self._initialize_references()
+      self._initialize_references_or_undo()
     self._import_nonfield_references(previous)
     self._update_nonfield_backreferences(previous)
 
